@@ -326,7 +326,8 @@ func parentMain() int {
 	}
 	type job struct{ from, to int }
 	var jobs []job
-	for f := 0; f < n; f += batch {
+	// VERIF_FROM (maintenance only, not used by any registered command): start the case list at this index
+	for f := envInt("VERIF_FROM", 0); f < n; f += batch {
 		jobs = append(jobs, job{f, min(f+batch, n)})
 	}
 	outs := make([]batchOut, len(jobs))
